@@ -156,6 +156,29 @@ def gen_huge(rng, cfg):
     return cfg_name(cfg) + " " + " ".join(ops)
 
 
+def bulk_shape(n, leaf, inner):
+    """cumulative item counts at the end of every node, level by level (index 0 = leaves), of the tree BTree::bulk_load
+    builds from n distinct items: node i of a level takes remaining / (nodes - i) of what is left."""
+    def spread(total, parts):
+        out, left = [], total
+        for i in range(parts):
+            c = left // (parts - i); out.append(c); left -= c
+        return out
+    nl = (n + leaf - 1) // leaf
+    ends, acc = [], 0
+    for c in spread(n, nl):
+        acc += c; ends.append(acc)
+    levels = [ends]
+    while len(levels[-1]) > 1:
+        prev = levels[-1]
+        npar = (len(prev) + inner) // (inner + 1)
+        ends, idx = [], 0
+        for c in spread(len(prev), npar):
+            idx += c; ends.append(prev[idx - 1])
+        levels.append(ends)
+    return levels
+
+
 def gen_deep_bulk(rng, cfg, levels):
     """bulk_load just above leaf*(inner+1)^(levels-1) entries, i.e. a tree with `levels` inner levels (3 and 4 for the
     small capacity pairs), then verify() (after every op anyway), lookups at the boundaries of the level-1 and level-2
@@ -176,6 +199,26 @@ def gen_deep_bulk(rng, cfg, levels):
         if m < n:
             k = ks[m - 1 if rng.chance(1, 2) else m]
             ops.append("%s,0,%d" % (rng.choice(["L", "Uc", "R", "F", "C", "Lc", "U"]), k))
+    # erase BY ITERATOR the last entry of whole level-1 / level-2 / level-3 subtrees (bulk_load fills the leaves, so entry
+    # m-1 is the largest key below that boundary): the last-key update then has to climb one, two or three inner levels
+    # (erase_iter_descend forwards it upwards), and the lookups next to the erased key read the rewritten separators
+    # the boundaries are those of the shape bulk_load really builds (it spreads items over the leaves and children over
+    # the parents evenly, so they are NOT at multiples of leaf * (inner + 1)^e unless n happens to divide)
+    shape = bulk_shape(n, leaf, inner)
+    emarks, seen = [], set()
+    for lev in reversed(shape[1:]):          # highest inner level below the root first
+        for m in lev[:-1][:3]:
+            if m not in seen:
+                seen.add(m); emarks.append(m)
+    done = 0
+    for m in emarks:
+        if 2 <= m < n and done < 8 and ks[m - 1] != ks[m - 2] and ks[m - 1] != ks[m]:
+            k, dat = items[m - 1]
+            ops.append("EI,0,%d,%d,0" % (k, dat))
+            for q in (k, ks[m], ks[m - 2]):
+                ops.append("%s,0,%d" % (rng.choice(["F", "L", "U", "C"]), q))
+                ops.append("F,0,%d" % q)
+            done += 1
     d = n + 1
     for _ in range(8):
         m = rng.choice([x for x in marks if x < n] or [n // 2])
@@ -568,6 +611,9 @@ def main(pid):
                 cases.append(gen_deep_bulk(rng, cfg, 3 if (t // len(small)) % 2 == 0 or cfg[2] * (cfg[3] + 1) ** 3 > 800 else 4))
         for cfg in [c for c in normal if c[2:4] == (8, 8)][:1]:
             cases.append(gen_deep_bulk(rng, cfg, 3))
+        # four inner levels in the quick tier too (smallest capacity pairs; the loop above reaches them only in the thorough tier)
+        for cfg in [c for c in small if c[2] * (c[3] + 1) ** 3 <= 800][:2]:
+            cases.append(gen_deep_bulk(rng, cfg, 4))
         for cfg in cfgs:
             if cfg in HUGE_CFGS:
                 for _ in range(2 if ck.thorough() else 1):
